@@ -3,7 +3,21 @@
 64-bit routines (mg_*), the multiword ring ZmodN and the private 128-bit type M128.
 Request lines: see lean/Ymq/Drv/Mg64.lean and lean/Ymq/Drv/ZmodN.lean.
 """
+# SIZE AUDIT (quick tier), measured on cases('quick', Random(1)): bit length of the modulus n per op
+#   op                          quick max   thorough max   code supports                  boundary classes reached in quick
+#   mg_2adic_inv/redc/mul/inv   64          64             u64 (odd n < 2^64)             31,32,33,62,63,64 bits: >= 7 cases each (random styles);
+#                                                                                         since the audit also 1 per op deterministically (boundary_cases)
+#   m128_inv_2adic/r_r2/add/    128         128            u128 (odd n < 2^128; R = 2^64  62,63,64,65,126,127,128: all reached by the random styles, 65 bits
+#     sub/mul                                              for n < 2^64)                  only 4..23 times per op -> now also deterministic
+#   zn_new/mul/mulmod/redc/     512         512            ZmodN: odd n < 2^512 (8 words) every 64k-1, 64k, 64k+1 (k = 1..7), 499, 500 reached by every op, but
+#     from_int/to_int/from_to                              (factor() refuses > 500 bits)  64k+1 (top word = 1) only 1..60 times per op (zn_inv at 129 bits: once)
+#   zn_add/sub/redc_large       512 (chk)   512 (chk)      same; 501..512 chk only        -> now 3 moduli x every op at each of 2,31..33,63..65,...,447..449,499,500
+#   zn_inv/zn_gcd               500         500            n <= 500 bits here (C09)       bits, and 501, 511, 512 in the band conventions (oracle off)
+#   mint_lt/add/sub             sz 1..8 words, full words   8 words                        all sizes
+# Verdict: no size class was missing in quick (quick = thorough / 10 in count only); the boundary family makes the classes
+# independent of the seed.
 import math
+import random
 from vlib.pipeline import Case
 from vlib import gen
 
@@ -21,7 +35,9 @@ HYPOTHESES = ["inv_mod_spec (theorem inv_spec): arith_gcd::inv_mod(a, n) returns
 PROFILES = ["release", "chk"]
 W = 1 << 64
 M64 = W - 1
-RULE = ("moduli: k = 1..8 words x styles {2^B-s, 2^(B-1)+s, all-ones, 2^j+1, single-bit words, random, mixed patterns, small top word}, "
+RULE = ("first, in both tiers, a deterministic boundary family: every op at moduli of exactly 2, 31..33, 63..65, 127..129, ..., 447..449, 499, 500 bits "
+        "(2^B-s, 2^(B-1)+s, random) and 501/511/512 bits (band conventions), M128 at 63..66/96/126..128 bits, mg_* at 2/31..33/62..64 bits; then "
+        "moduli: k = 1..8 words x styles {2^B-s, 2^(B-1)+s, all-ones, 2^j+1, single-bit words, random, mixed patterns, small top word}, "
         "B = min(64k, 500); a separate band of 501..512-bit moduli (oracle off, model compared); operands {0, 1, n-1, n/2, near n, random, "
         "near-n pairs that force the overflow path of _mint_mulmod}; redc inputs x < n*R random / maximal / with all-ones words above the "
         "current row (family of the old carry defect); non-trivial = some operand outside {0,1}; distinct by request line")
@@ -377,10 +393,90 @@ def mg64_cases(rng, N):
         yield Case(f"mg_redc {n} {rng.getrandbits(64)} {rng.randrange(n * W)}", o=False, profiles=["chk"])
 
 
+def _fork(rng, label):
+    """own stream for the boundary family: depends on the run's seed, leaves the stream of the older families untouched"""
+    return random.Random(f"{label}:{rng.getstate()[1][:4]}")
+
+
+# bit lengths of the modulus around every word boundary of the limb arithmetic and at the ends of the supported range
+ZN_BOUNDARY_BITS = [2, 31, 32, 33] + [64 * k + d for k in range(1, 8) for d in (-1, 0, 1)] + [499, 500]
+ZN_BAND_BITS = [501, 511, 512]
+M128_BOUNDARY_BITS = [2, 32, 63, 64, 65, 66, 96, 126, 127, 128]
+MG_BOUNDARY_BITS = [2, 31, 32, 33, 62, 63, 64]
+
+
+def exact_moduli(rng, bits):
+    """odd moduli of exactly `bits` bits: all-ones top, minimal, random"""
+    if bits == 2:
+        return [3]
+    s = rng.choice([1, 3, 5, 59, 189])
+    ns = [(1 << bits) - s, (1 << (bits - 1)) + s, rng.getrandbits(bits) | (1 << (bits - 1)) | 1]
+    assert all(n % 2 == 1 and n.bit_length() == bits for n in ns)
+    return ns
+
+
+def one_of_each(rng, n, band):
+    """every zn_* op once on the modulus n, with the operand shapes of zn_cases (near n, maximal redc input, ...)"""
+    k = nwords(n)
+    R = 1 << (64 * k)
+    chk_only = ["chk"] if band else None
+    o = not band
+    near = lambda: (n - 1 - rng.getrandbits(rng.choice([1, 4, 32]))) % n
+    x, y = residue(rng, n), residue(rng, n)
+    yield Case(f"zn_new {n}", o=o)
+    yield Case(f"zn_mul {n} {near()} {near()}", o=o)
+    yield Case(f"zn_mul {n} {rng.randrange(n)} {rng.randrange(n)}", o=o)
+    yield Case(f"zn_mulmod {n} {near()} {near()}", o=o)
+    yield Case(f"zn_add {n} {near()} {rng.randrange(n)}", o=o, profiles=chk_only)
+    yield Case(f"zn_sub {n} {x} {near()}", o=o, profiles=chk_only)
+    yield Case(f"zn_redc {n} {n * R - 1 - rng.getrandbits(rng.choice([1, 64]))}", o=o)
+    yield Case(f"zn_redc {n} {redc_input(rng, n, k)}", o=o)
+    hi = rng.randrange(n) >> (64 if k == 8 else 0)
+    xx = hi * R + rng.getrandbits(64 * k)
+    need = max(k, (xx.bit_length() + 63) // 64)
+    yield Case(f"zn_redc_large {n} {words_of(xx, need + rng.randrange(0, 3))}", o=o, profiles=chk_only)
+    yield Case(f"zn_from_int {n} {rng.randrange(n)}", o=o)
+    yield Case(f"zn_to_int {n} {rng.randrange(n)}", o=o)
+    yield Case(f"zn_from_to {n} {near()}", o=o)
+    if not band:
+        u = rng.randrange(1, n)
+        yield Case(f"zn_inv {n} {u}", o=o)
+        yield Case(f"zn_gcd {n} {u}", o=o)
+
+
+def boundary_cases(rng, tier):
+    """deterministic size classes (both tiers, yielded first): each op at every word boundary of its modulus"""
+    for bits in ZN_BOUNDARY_BITS:
+        for n in exact_moduli(rng, bits):
+            yield from one_of_each(rng, n, False)
+    for bits in ZN_BAND_BITS:
+        for n in exact_moduli(rng, bits):
+            yield from one_of_each(rng, n, True)
+    for bits in M128_BOUNDARY_BITS:
+        for n in exact_moduli(rng, bits):
+            ninv = ninv_of(n, 64 * nwords(n))
+            x, y = (n - 1 - rng.getrandbits(4)) % n, rng.randrange(n)
+            yield Case(f"m128_inv_2adic {n}")
+            yield Case(f"m128_r_r2 {n} {ninv}")
+            yield Case(f"m128_add {n} {x} {y}")
+            yield Case(f"m128_sub {n} {y} {x}")
+            yield Case(f"m128_mul {n} {ninv} {x} {y}")
+            yield Case(f"zn_mul {n} {x} {y}")
+    for bits in MG_BOUNDARY_BITS:
+        for n in exact_moduli(rng, bits):
+            ninv = ninv_of(n)
+            x, y = (n - 1 - rng.getrandbits(4)) % n, rng.randrange(n)
+            yield Case(f"mg_2adic_inv {n}")
+            yield Case(f"mg_redc {n} {ninv} {x * W + (W - 1)}")
+            yield Case(f"mg_mul {n} {ninv} {x} {y}")
+            yield Case(f"mg_inv {n} {ninv} {W * W % n} {y}")
+
+
 def cases(tier, rng, extended=False):
     scale = 1 if tier == "quick" else 10   # the pipeline keeps all cases in memory (~0.5 GB per unit)
     if extended:
         scale *= 10
+    yield from boundary_cases(_fork(rng, "C07-boundary"), tier)
     yield from mg64_cases(rng, 4000 * scale)
     # multiword ring: moduli x ops
     for _ in range(700 * scale):
